@@ -323,6 +323,10 @@ def oracle(ops, impl):
             tampered.add(int(w0[1]))
         if w0[0] == 'pass' and len(w0) > 1 and 'p' in w0[1] and tampered:
             everything_tampered = True  # pack renumbers the vertices
+        if w0[0] == 'setpara' and lines and lines[0].startswith('PA 1'):
+            # one rank of a pretended parallel run: no sequential fall-back, unlocated vertices wait for the next
+            # ref_metric_synchronize, which this session never runs
+            everything_tampered = True
         for line in lines:
             w = line.split()
             if w[0] == 'I':
@@ -585,6 +589,29 @@ def gen_fn(rng, tier):
             ops.append('between %d %d %s' % (a, b, hx(rng.uniform(0.1, 0.9))))
         for node in sorted(onb)[:6]:
             ops.append('improve tri %d' % node)
+        ops.append('dump')
+        # one rank of a pretended parallel run (ref_mpi_para true): no sequential fall-back, so a walk that hits the
+        # boundary of a non-convex background, runs out of steps or starts from a far guess ends in REF_NOT_FOUND
+        nx = rng.randint(6, 9)
+        v, t, e = mask_tris(nx, nx, shape_keep(rng.choice(['L', 'U', 'slit']), nx, nx), rng=rng, jitter=0.2)
+        inter, bnd = _interior_boundary(t, e)
+        ops += [grid_line(0, True, v, field2d(rng, 0.15, 0.2), t, e), 'setpara 1']
+        for _k in range(10 if tier == 'quick' else 24):
+            n = rng.choice(inter)
+            x0 = v[n]
+            p = (rng.uniform(0, 1), rng.uniform(0, 1), 0.0)
+            ops.append('move %d %s %s %s' % (n, hx(p[0]), hx(p[1]), hx(0.0)))
+            ops.append('move %d %s %s %s' % (n, hx(x0[0]), hx(x0[1]), hx(0.0)))
+            a, b = rng.sample(range(len(v)), 2)
+            ops.append('between %d %d %s %s %s %s' % (a, b, hx(0.5), hx(rng.uniform(0, 1)), hx(rng.uniform(0, 1)), hx(0.0)))
+        for n in rng.sample(inter, min(len(inter), 6)):
+            ops.append('improve tri %d' % n)
+        ops += ['pass m', 'setpara 0', 'improve tri %d' % inter[0], 'setpara 2']
+        n = rng.randint(8, 12)
+        v, t, e = strip(n, 0.06, 0.1, 0.002)
+        ops += [grid_line(0, True, v, strip_field(rng.uniform(-0.3, 0.2)), t, e), 'setpara 1']
+        for i in range(n):
+            ops.append('improve tri %d' % (2 * (n + 1) + i))
         ops.append('dump')
         # modes without a usable background
         nx = 5
